@@ -206,6 +206,10 @@ struct DocsSpec {
     n: usize,
     /// 0: short docs; 1: one document per field-norm bucket (sweep); 2: mixed with a few long ones;
     /// 3: many short documents (segments larger than the 4096-document window of the union scorer)
+    /// 4: like 3 with RARE terms `d` (about 1 in 40) and `e` (about 1 in 120) and long stretches
+    ///    of documents without the frequent terms `a b c`, several of them ending at or just after
+    ///    a multiple of 4096: a conjunction led by a rare term seeks a union of the frequent ones
+    ///    over whole 64-document buckets and across window refills
     profile: u8,
     /// share of the documents deleted after indexing (the statistics keep counting them)
     delete_permille: u64,
@@ -226,6 +230,41 @@ fn deleted_ids(spec: &DocsSpec) -> std::collections::HashSet<u64> {
 fn gen_docs(spec: &DocsSpec) -> Vec<GenDoc> {
     let mut rng = Rng(spec.seed);
     let mut docs = vec![];
+    if spec.profile == 4 {
+        // stretches without a/b/c
+        let mut gaps: Vec<(usize, usize)> = vec![];
+        let mut w = 4096;
+        while w < spec.n + 4096 {
+            if rng.chance(3, 4) {
+                let start = w.saturating_sub(200 + rng.usize_below(1500));
+                let end = w + [0usize, 0, 3, 40, 130][rng.usize_below(5)];
+                gaps.push((start, end));
+            }
+            if rng.chance(1, 2) {
+                let start = w.saturating_sub(4096) + rng.usize_below(3000);
+                gaps.push((start, start + 70 + rng.usize_below(600)));
+            }
+            w += 4096;
+        }
+        for j in 0..spec.n {
+            let in_gap = gaps.iter().any(|(a, b)| *a <= j && j < *b);
+            let mut toks: Vec<u8> = vec![];
+            if !in_gap {
+                for t in 0..3u8 {
+                    if rng.below(100) < [55u64, 45, 30][t as usize] {
+                        let c = if rng.chance(1, 5) { 2 } else { 1 };
+                        toks.extend(std::iter::repeat(t).take(c));
+                    }
+                }
+            }
+            if rng.chance(1, 40) { toks.push(3); }
+            if rng.chance(1, 120) { toks.push(4); if rng.chance(1, 3) { toks.push(4); } }
+            let fill = 1 + rng.usize_below(3);
+            toks.extend(std::iter::repeat(5u8).take(fill));
+            docs.push(GenDoc { toks });
+        }
+        return docs;
+    }
     for j in 0..spec.n {
         let len: u32 = match spec.profile {
             0 => 1 + rng.below(12) as u32,
@@ -359,6 +398,9 @@ enum Q {
     Should(Vec<Q>),
     Must(Vec<Q>),
     DisMax(Vec<Q>, f32),
+    /// `+m1 +m2 … s1 s2 …`: required clauses plus optional ones that only add to the score
+    /// (RequiredOptionalScorer over a union of the optional clauses)
+    Mix(Vec<Q>, Vec<Q>),
 }
 
 /// Frequencies of phrases WITH SLOP, per document id, as the implementation's own stand-alone
@@ -388,6 +430,7 @@ impl Q {
             Q::Phrase(_, s) if *s > 0 => out.push(self.clone()),
             Q::Boost(q, _) | Q::Const(q, _) => q.sloppy_phrases(out),
             Q::Should(qs) | Q::Must(qs) | Q::DisMax(qs, _) => qs.iter().for_each(|q| q.sloppy_phrases(out)),
+            Q::Mix(ms, ss) => ms.iter().chain(ss.iter()).for_each(|q| q.sloppy_phrases(out)),
             _ => {}
         }
     }
@@ -400,6 +443,7 @@ impl Q {
             Q::Should(qs) => Box::new(BooleanQuery::new(qs.iter().map(|q| (Occur::Should, q.build(body))).collect())),
             Q::Must(qs) => Box::new(BooleanQuery::new(qs.iter().map(|q| (Occur::Must, q.build(body))).collect())),
             Q::DisMax(qs, tie) => Box::new(DisjunctionMaxQuery::with_tie_breaker(qs.iter().map(|q| q.build(body)).collect(), *tie)),
+            Q::Mix(ms, ss) => Box::new(BooleanQuery::new(ms.iter().map(|q| (Occur::Must, q.build(body))).chain(ss.iter().map(|q| (Occur::Should, q.build(body)))).collect())),
         }
     }
     fn matches(&self, id: u64, d: &GenDoc, env: &Sloppy) -> bool {
@@ -409,6 +453,7 @@ impl Q {
             Q::Boost(q, _) | Q::Const(q, _) => q.matches(id, d, env),
             Q::Should(qs) | Q::DisMax(qs, _) => qs.iter().any(|q| q.matches(id, d, env)),
             Q::Must(qs) => qs.iter().all(|q| q.matches(id, d, env)),
+            Q::Mix(ms, _) => ms.iter().all(|q| q.matches(id, d, env)),
         }
     }
     /// RPN of the model tree restricted to the clauses matching `d`; also
@@ -451,6 +496,21 @@ impl Q {
                 }
                 (exact && k <= 2, units + 1)
             }
+            Q::Mix(ms, ss) => {
+                let mut exact = true;
+                let mut units = 0;
+                let mut k = 0;
+                for q in ms.iter().chain(ss.iter()) {
+                    if q.matches(id, d, env) {
+                        let r = q.rpn(id, d, env, df, fid, out);
+                        exact &= r.0;
+                        units += r.1;
+                        k += 1;
+                    }
+                }
+                out.push(format!("s.{k}"));
+                (exact && k <= 2, units + 1)
+            }
         }
     }
     fn has_boost(&self) -> bool {
@@ -459,6 +519,7 @@ impl Q {
             Q::Boost(_, _) => true,
             Q::Const(_, _) => false,
             Q::Should(qs) | Q::Must(qs) | Q::DisMax(qs, _) => qs.iter().any(|q| q.has_boost()),
+            Q::Mix(ms, ss) => ms.iter().chain(ss.iter()).any(|q| q.has_boost()),
         }
     }
     /// a ConstScore clause (below a boolean) that does not match `d`
@@ -468,6 +529,7 @@ impl Q {
             Q::Const(q, _) => !q.matches(id, d, env),
             Q::Boost(q, _) => q.has_nonmatching_const(id, d, env),
             Q::Should(qs) | Q::Must(qs) | Q::DisMax(qs, _) => qs.iter().any(|q| q.has_nonmatching_const(id, d, env)),
+            Q::Mix(ms, ss) => ms.iter().chain(ss.iter()).any(|q| q.has_nonmatching_const(id, d, env)),
         }
     }
     /// a phrase clause (below a boolean) that does not match `d`
@@ -477,6 +539,7 @@ impl Q {
             Q::Phrase(_, _) => !self.matches(id, d, env),
             Q::Const(q, _) | Q::Boost(q, _) => q.has_nonmatching_phrase(id, d, env),
             Q::Should(qs) | Q::Must(qs) | Q::DisMax(qs, _) => qs.iter().any(|q| q.has_nonmatching_phrase(id, d, env)),
+            Q::Mix(ms, ss) => ms.iter().chain(ss.iter()).any(|q| q.has_nonmatching_phrase(id, d, env)),
         }
     }
     /// a phrase clause inside a Should / dis-max that is itself (below) a clause of a Must: the
@@ -488,6 +551,7 @@ impl Q {
             Q::Const(q, _) | Q::Boost(q, _) => q.phrase_in_union_in_must(in_must, in_union),
             Q::Must(qs) => qs.iter().any(|q| q.phrase_in_union_in_must(true, false)),
             Q::Should(qs) | Q::DisMax(qs, _) => qs.iter().any(|q| q.phrase_in_union_in_must(in_must, in_must)),
+            Q::Mix(ms, ss) => ms.iter().any(|q| q.phrase_in_union_in_must(true, false)) || ss.iter().any(|q| q.phrase_in_union_in_must(true, true)),
         }
     }
     fn has_sloppy(&self) -> bool {
@@ -505,6 +569,7 @@ impl Q {
             Q::Should(qs) => Q::Should(qs.iter().map(|q| q.without_slop()).collect()),
             Q::Must(qs) => Q::Must(qs.iter().map(|q| q.without_slop()).collect()),
             Q::DisMax(qs, t) => Q::DisMax(qs.iter().map(|q| q.without_slop()).collect(), *t),
+            Q::Mix(ms, ss) => Q::Mix(ms.iter().map(|q| q.without_slop()).collect(), ss.iter().map(|q| q.without_slop()).collect()),
         }
     }
     fn single_clause(&self) -> bool {
@@ -524,6 +589,7 @@ impl Q {
             Q::Should(qs) => if qs.iter().any(|q| matches!(q, Q::Phrase(_, _))) { "should+phrase" } else { "should" },
             Q::Must(qs) => if qs.iter().any(|q| matches!(q, Q::Phrase(_, _))) { "must+phrase" } else { "must" },
             Q::DisMax(_, t) => if *t == 0.0 { "dismax-tie0" } else { "dismax-tie" },
+            Q::Mix(_, _) => "must+should",
         }
     }
     fn to_json(&self) -> Value {
@@ -535,6 +601,7 @@ impl Q {
             Q::Should(qs) => json!({"should": qs.iter().map(|q| q.to_json()).collect::<Vec<_>>()}),
             Q::Must(qs) => json!({"must": qs.iter().map(|q| q.to_json()).collect::<Vec<_>>()}),
             Q::DisMax(qs, t) => json!({"dismax": qs.iter().map(|q| q.to_json()).collect::<Vec<_>>(), "tie": t.to_bits()}),
+            Q::Mix(ms, ss) => json!({"mix_must": ms.iter().map(|q| q.to_json()).collect::<Vec<_>>(), "mix_should": ss.iter().map(|q| q.to_json()).collect::<Vec<_>>()}),
         }
     }
     fn from_json(v: &Value) -> Option<Q> {
@@ -545,6 +612,7 @@ impl Q {
         if let Some(b) = v.get("const") { return Some(Q::Const(Box::new(Q::from_json(&v["q"])?), f32::from_bits(b.as_u64()? as u32))); }
         if let Some(l) = v.get("should") { return Some(Q::Should(list(l)?)); }
         if let Some(l) = v.get("must") { return Some(Q::Must(list(l)?)); }
+        if let Some(l) = v.get("mix_must") { return Some(Q::Mix(list(l)?, list(&v["mix_should"])?)); }
         if let Some(l) = v.get("dismax") { return Some(Q::DisMax(list(l)?, f32::from_bits(v["tie"].as_u64()? as u32))); }
         None
     }
@@ -778,9 +846,10 @@ fn corpus_case(ctx: &mut Ctx, spec: &DocsSpec, segmentations: &[Vec<usize>], que
                 _ => { ctx.report.violation("oracle", "C12:search-failed", format!("TopDocs failed on {}", q.to_json()), case(json!({"query": q.to_json()}))); continue }
             };
             // the clauses of a boolean / dis-max query evaluated on their own (same searcher)
-            let children: Option<(Vec<HashMap<DocAddress, Score>>, Option<f32>, &Vec<Q>)> = match q {
-                Q::Should(qs) | Q::Must(qs) => qs.iter().map(|c| standalone_scores(searcher, body, c)).collect::<Option<Vec<_>>>().map(|v| (v, None, qs)),
-                Q::DisMax(qs, tie) => qs.iter().map(|c| standalone_scores(searcher, body, c)).collect::<Option<Vec<_>>>().map(|v| (v, Some(*tie), qs)),
+            let children: Option<(Vec<HashMap<DocAddress, Score>>, Option<f32>, Vec<Q>)> = match q {
+                Q::Should(qs) | Q::Must(qs) => qs.iter().map(|c| standalone_scores(searcher, body, c)).collect::<Option<Vec<_>>>().map(|v| (v, None, qs.clone())),
+                Q::Mix(ms, ss) => { let qs: Vec<Q> = ms.iter().chain(ss.iter()).cloned().collect(); qs.iter().map(|c| standalone_scores(searcher, body, c)).collect::<Option<Vec<_>>>().map(|v| (v, None, qs)) }
+                Q::DisMax(qs, tie) => qs.iter().map(|c| standalone_scores(searcher, body, c)).collect::<Option<Vec<_>>>().map(|v| (v, Some(*tie), qs.clone())),
                 _ => None,
             };
             let id_cols: Vec<_> = searcher.segment_readers().iter().map(|r| r.fast_fields().u64("id").unwrap()).collect();
@@ -954,6 +1023,7 @@ pub fn run(ctx: &mut Ctx) {
         "postings tf / FieldNormReader::fieldnorm_id = recomputed from the generated documents".into(),
         "boolean score = sum of the matching clauses' own scores; dis-max score = max + tie·(sum − max) of them (every document, every 4096-document window of segments up to > 8192 docs)".into(),
         "scores of a scoring collector = model score with the document's own tf / phrase count (bit for bit for one clause and ≤2-clause sums/dis-max; 4 ulp per clause otherwise)".into(),
+        "large single segments (6000-12500 short documents) with rare required terms and stretches without the frequent terms: `+rare +(b c)`, `+rare b c` scored = sum of the clauses' own scores = the same documents cut into 1000-document segments".into(),
         "TopDocs score = scoring collector score; scores independent of the segmentation (1..6 segmentations, bit-identical in the exact class)".into(),
         "Query::explain value = collected score (bit for bit without boosts) = model explain value, for documents of every window".into(),
     ];
@@ -991,5 +1061,33 @@ pub fn run(ctx: &mut Ctx) {
         if c < 3 {
             ctx.report.sample(json!({"part": "B", "docs": [spec.seed.to_string(), spec.n, spec.profile, spec.delete_permille], "segmentations": segs, "queries": queries.iter().map(|q| q.to_json()).collect::<Vec<_>>()}));
         }
+    }
+    // large single segments, rare required term + frequent optional / nested-union terms with
+    // stretches where the frequent terms are absent; compared with the same documents cut into
+    // 1000-document segments (the union scorer never refills a window there)
+    let gappy = ctx.budget(5, 60);
+    let mut rng = ctx.rng.fork();
+    for _ in 0..gappy {
+        let n = [6000usize, 8300, 9500, 12500][rng.usize_below(4)];
+        let spec = DocsSpec { seed: rng.next_u64(), n, profile: 4, delete_permille: 0 };
+        let segs = vec![vec![], (1..n / 1000 + 1).map(|k| k * 1000).filter(|c| *c < n).collect::<Vec<usize>>()];
+        let rare = |rng: &mut Rng| Q::Term(if rng.chance(2, 3) { 4 } else { 3 });
+        let mut queries: Vec<Q> = vec![
+            Q::Must(vec![Q::Term(4), Q::Should(vec![Q::Term(1), Q::Term(2)])]),
+            Q::Mix(vec![Q::Term(4)], vec![Q::Term(1), Q::Term(2)]),
+            Q::Must(vec![Q::Term(3), Q::Should(vec![Q::Term(0), Q::Term(1), Q::Term(2)])]),
+            Q::Mix(vec![Q::Term(3)], vec![Q::Term(0), Q::Term(2)]),
+            Q::Must(vec![Q::Term(4), Q::DisMax(vec![Q::Term(0), Q::Term(1)], 0.3)]),
+        ];
+        for _ in 0..3 {
+            let mut ts: Vec<usize> = vec![0, 1, 2];
+            rng.shuffle(&mut ts);
+            let k = 2 + rng.usize_below(2);
+            let opt: Vec<Q> = ts[..k].iter().map(|t| if rng.chance(1, 4) { Q::Boost(Box::new(Q::Term(*t)), 2.0) } else { Q::Term(*t) }).collect();
+            queries.push(match rng.below(3) { 0 => Q::Mix(vec![rare(&mut rng)], opt), 1 => Q::Must(vec![rare(&mut rng), Q::Should(opt)]), _ => Q::Mix(vec![Q::Term(3), Q::Term(4)], opt) });
+        }
+        ctx.report.count("corpus:gappy-large-single-segment");
+        let mut r2 = rng.fork();
+        corpus_case(ctx, &spec, &segs, &queries, 25, &mut r2);
     }
 }
